@@ -15,9 +15,9 @@ import (
 
 func init() {
 	core.Register(&core.Check{
-		ID:     "C12",
-		Rule:   "cases: every real oneof of every linked type (open/hybrid/opaque/legacy/dynamicpb) x PRNG histories (<= 8 steps) of: reflection Set/Mutable/Clear of a member, generated SetX/ClearX, Merge from a message holding another member, merge-decoding wire data with 1-3 members (last wins; same message member merges); after every step at most one member is populated, WhichOneof names it and its value equals the model's; plus JSON and text documents naming two members of one oneof (built by splicing two single-member documents) must be rejected while each single-member document is accepted; distinct = distinct (type, oneof, history); non-trivial = >= 2 member-changing steps",
-		Assume: []string{"msgmodel oneof semantics (set clears siblings; decode: last member on the wire wins)"},
+		ID:      "C12",
+		Rule:    "cases: every real oneof of every linked type (open/hybrid/opaque/legacy/dynamicpb) x PRNG histories (<= 8 steps) of: reflection Set/Mutable/Clear of a member, generated SetX/ClearX, Merge from a message holding another member, merge-decoding wire data with 1-3 members (last wins; same message member merges); after every step at most one member is populated, WhichOneof names it and its value equals the model's; plus JSON and text documents naming two members of one oneof (built by splicing two single-member documents) must be rejected while each single-member document is accepted; distinct = distinct (type, oneof, history); non-trivial = >= 2 member-changing steps",
+		Assume:  []string{"msgmodel oneof semantics (set clears siblings; decode: last member on the wire wins)"},
 		Batches: func(tier string) []core.Batch { return stdBatches([]string{"base"}, 8) },
 		Gates: func(tier string) map[string]int64 {
 			return map[string]int64{"histories": 2000, "step:decode": 500, "step:merge": 500, "step:generated-set": 100, "json_two_members": 300, "text_two_members": 300, "member_kind:message": 100, "member_kind:bytes": 20, "member_kind:enum": 20}
